@@ -146,3 +146,27 @@ def close(a, b, S, tol=1e-9):
 def validate(drv, kind, with_dt, nret, tbl, body_sx):
     r = drv.ask(["validate", kind, with_dt, nret, tbl, body_sx])
     return r
+
+
+THEOREM_OF = {"rhs": "MirrorValid.mirror_rhs_correct", "euler": "MirrorValid.mirror_euler_correct",
+              "named": "MirrorValid.mirror_monitor_correct"}
+
+
+def check_instance(rep, v, text, kind):
+    """The mirror-compiler theorems (coq/MirrorValid.v) say: for every model with wf_gen = true the mirror's
+    function passes the validator.  Their tie to this run: the model the implementation generated code for
+    must satisfy wf_gen (otherwise the theorem says nothing about it), and the instance of the theorem on
+    this model must evaluate to true in the extracted code."""
+    if v.get("status") != "ok" or "wf" not in v:
+        return
+    if not v["wf"]:
+        rep.count("mirror_theorem_hypotheses_fail")
+        rep.violation("code was generated for a model outside the hypotheses (wf_gen) of " + THEOREM_OF.get(kind, kind),
+                      {"kind": "correspondence", "relation": "wf_gen (mirror model) for a model with generated code",
+                       "theorem": THEOREM_OF.get(kind), "text": text, "failing_input": None}, failing_input_found=False)
+        return
+    rep.count("mirror_theorem_hypotheses_hold")
+    if not v["mirror_valid"]:
+        rep.violation("the extracted instance of " + THEOREM_OF.get(kind, kind) + " evaluates to false (model / extraction inconsistent)",
+                      {"kind": "correspondence", "relation": "theorem instance", "theorem": THEOREM_OF.get(kind), "text": text,
+                       "failing_input": None}, failing_input_found=False)
